@@ -15,6 +15,8 @@ import EmitModel.Model.Text
 import EmitModel.Model.HexId
 import EmitModel.Model.TraceparentText
 import EmitModel.Model.Timestamp
+import EmitModel.Model.PathValid
+import EmitModel.Model.KindText
 
 namespace EmitModel.Driver.C15
 open EmitModel EmitModel.Text
@@ -202,7 +204,79 @@ def runTs (line : String) : String :=
 
 end Ts
 
+/-! ### c15_path
+    (valid (CP START CONT)…)   one triple per char of the path: code point and its XID_Start / XID_Continue class
+                               → true | false                       (is_valid_path / Path::new* / cast to Path)
+    (child xCHILD xPARENT)     → true | false                       (Path::is_child_of on raw paths)
+-/
+section PathS
+open EmitModel.PathValid
+
+def charClass? : Sexp → Option (Char × Bool × Bool)
+  | .list [cp, s, c] => do
+    let n ← cp.nat?
+    let s ← s.bool?
+    let c ← c.bool?
+    if h : n.isValidChar then pure (Char.ofNatAux n h, s, c) else none
+  | _ => none
+
+def classOf (tbl : List (Char × Bool × Bool)) (pick : Bool × Bool → Bool) (c : Char) : Bool :=
+  match tbl.lookup c with
+  | some f => pick f
+  | none => false
+
+/-- the same char must not be shipped with two different classes -/
+def consistent (tbl : List (Char × Bool × Bool)) : Bool :=
+  tbl.all fun (c, f) => tbl.lookup c == some f
+
+def runPath (line : String) : String :=
+  match Sexp.parse line with
+  | some (.list (.atom "valid" :: cs)) =>
+    match cs.mapM charClass? with
+    | some tbl =>
+      if !consistent tbl then "bad-op"
+      else
+        let path := tbl.map (·.1)
+        let xs := classOf tbl (·.1)
+        let xc := classOf tbl (·.2)
+        let r := isValidPath xs xc path
+        let colons := (path.filter (· == ':')).length
+        s!"{r}\t{if path.isEmpty then "trivial" else s!"valid={r},colons={min colons 5},legacy={isValidPathLegacy xs xc path}"}"
+    | none => "bad-op"
+  | some (.list [.atom "child", c, p]) =>
+    match c.bytes?, p.bytes? with
+    | some c, some p =>
+      let r := isChildOf c p
+      s!"{r}\tchild={r},boundary={isCharBoundary c p.length}"
+    | _, _ => "bad-op"
+  | _ => "bad-op"
+
+end PathS
+
+/-! ### c15_kind
+    (kind xSTR)            parse / cast a text as `Kind`   → span | metric | none
+    (fmt-kind span|metric) Display                          → xTEXT
+-/
+section KindS
+open EmitModel.KindText
+
+def showKind : Option Kind → String
+  | some k => k.display
+  | none => "none"
+
+def runKind (line : String) : String :=
+  match Sexp.parse line with
+  | some (.list [.atom "kind", s]) =>
+    match s.str? with
+    | some s => let r := showKind (KindVal.cast (.text s)); s!"{r}\t{r}"
+    | none => "bad-op"
+  | some (.list [.atom "fmt-kind", .atom "span"]) => s!"{atomOfString Kind.span.display}\tfmt"
+  | some (.list [.atom "fmt-kind", .atom "metric"]) => s!"{atomOfString Kind.metric.display}\tfmt"
+  | _ => "bad-op"
+
+end KindS
+
 def streams : List (String × (String → String)) :=
-  [("c15_hex", runHex), ("c15_ts", runTs)]
+  [("c15_hex", runHex), ("c15_ts", runTs), ("c15_path", runPath), ("c15_kind", runKind)]
 
 end EmitModel.Driver.C15
